@@ -247,6 +247,11 @@ class ExprMixin:
         if isinstance(b, VAny) and isinstance(a, VStr):
             b = coerce(b, Str)
         if isinstance(op, ast.Add):
+            if isinstance(a, VList) and isinstance(b, VAny) and (a.elem is Str or (a.items and all(isinstance(x, VStr) for x in a.items))):
+                # list[str] + <dynamic value>: modelled when the dynamic value is a list of str (else unsafe)
+                self.safety(ValSort.is_LS(b.t), "type(list[str]) of dynamic value", lineno)
+                b = coerce(b, SeqOf(Str))
+                a = VList(Str, items=a.items, seq=a.seq)
             if isinstance(a, VStr) and isinstance(b, VStr):
                 return VStr(z3.Concat(a.t, b.t), is_bytes=a.is_bytes)
             if isinstance(a, VList) and isinstance(b, VList):
@@ -773,7 +778,6 @@ class ExprMixin:
         from .ex import _type_of_value
         oty = _type_of_value(val)
         body_val = oty.pack(val)
-        ok = simp(ok)
         f, caps = self._gen_recfun("mapfilter", elem, x, [body_val, ok], oty)
         return VList(oty, seq=f(it.seq, *caps))
 
@@ -783,13 +787,14 @@ class ExprMixin:
         caps = []
         seen = set()
         for t in terms:
-            for c in _free_consts(t):
-                if c.eq(x) or c.get_id() in seen:
+            for c in _captured_subterms(t, x):
+                if c.get_id() in seen:
                     continue
                 seen.add(c.get_id())
                 caps.append(c)
         holes = [z3.Const(f"cap!{i}!{_mangle_name(c.sort().name())}", c.sort()) for i, c in enumerate(caps)]
-        abst = [z3.substitute(t, *zip(caps, holes)) if caps else t for t in terms]
+        # captured subterms are cut out of the RAW terms (before simplification can push them apart), then simplified
+        abst = [simp(z3.substitute(t, *zip(caps, holes)) if caps else t) for t in terms]
         memo = {}
         key = (kind, elem.name, oty.name if oty else "", tuple(_canon_key(t, memo) for t in abst))
         if key not in RECFUNS:
@@ -821,7 +826,7 @@ class ExprMixin:
 
     def seq_pred_recfun(self, kind, it: VList, x, pred):
         """any/all/count of `pred` (z3 Bool over bound constant x) on a z3 sequence."""
-        f, caps = self._gen_recfun(kind, it.elem, x, [simp(pred)])
+        f, caps = self._gen_recfun(kind, it.elem, x, [pred])
         return f(it.seq, *caps)
 
     def ex_Starred(self, e, fr):
@@ -868,19 +873,68 @@ def _mangle_name(n):
     return "".join(c if c.isalnum() else "_" for c in n)
 
 
-def _free_consts(t):
+def _captured_subterms(t, x):
+    """Closure conversion: the maximal subterms of t that do not mention the bound element x but do mention some
+    symbol (free constant / uninterpreted application). They become parameters of the generated function, so the
+    same comprehension text denotes the same function whatever expression a captured variable currently holds."""
+    has_x, has_sym = {}, {}
+
+    def scan(e):
+        i = e.get_id()
+        if i in has_x:
+            return
+        hx, hs = False, False
+        if z3.is_app(e):
+            if e.eq(x):
+                hx = True
+            elif e.decl().kind() == z3.Z3_OP_UNINTERPRETED:
+                hs = True
+            for c in e.children():
+                scan(c)
+                hx = hx or has_x[c.get_id()]
+                hs = hs or has_sym[c.get_id()]
+        elif z3.is_quantifier(e):
+            scan(e.body())
+            hx, hs = True, has_sym[e.body().get_id()]  # never abstract across a binder
+        has_x[i], has_sym[i] = hx, hs
+
+    scan(t)
+    shapes = {}
+
+    def shape(e):
+        # key of e in which every captured subterm counts only by its sort: used to visit the arguments of
+        # commutative operators in an order that does not depend on z3's id-based argument order, so that terms
+        # equal up to commutativity number their captures alike (ties between equal shapes: order as given)
+        import hashlib
+        i = e.get_id()
+        if i not in shapes:
+            if not has_x[i] and has_sym[i]:
+                shapes[i] = "cap:" + e.sort().sexpr()
+            elif z3.is_app(e) and e.num_args() > 0:
+                kids = [shape(c) for c in e.children()]
+                if e.decl().kind() in _AC_KINDS:
+                    kids = sorted(kids)
+                shapes[i] = hashlib.sha1("|".join([e.decl().name(), str(e.decl().kind()), e.sort().sexpr()] + kids).encode()).hexdigest()
+            else:
+                shapes[i] = e.sort().sexpr() + ":" + e.sexpr()
+        return shapes[i]
+
     out, seen, todo = [], set(), [t]
     while todo:
         e = todo.pop()
-        if e.get_id() in seen:
+        i = e.get_id()
+        if i in seen:
             continue
-        seen.add(e.get_id())
-        if z3.is_const(e) and e.decl().kind() == z3.Z3_OP_UNINTERPRETED:
-            out.append(e)
-        elif z3.is_app(e):
-            todo.extend(reversed(e.children()))
-        elif z3.is_quantifier(e):
-            todo.append(e.body())
+        seen.add(i)
+        if not has_x[i]:
+            if has_sym[i]:
+                out.append(e)
+            continue
+        if z3.is_app(e):
+            kids = list(e.children())
+            if e.decl().kind() in _AC_KINDS and len(kids) > 1:
+                kids.sort(key=shape)
+            todo.extend(reversed(kids))
     return out
 
 
